@@ -81,8 +81,9 @@ def tree_to_lib(tree):
     if t in (1, 2):
         cls = P.AAssociateRqPDU if t == 1 else P.AAssociateAcPDU
         rsv3 = tree.get('rsv3', b'\0' * 32)
-        return cls(called_ae_title=_txt(strip_title(tree['called'])),
-                   calling_ae_title=_txt(strip_title(tree['calling'])),
+        # spaces are part of the value (a peer may pad with them); only the NUL fill is not
+        return cls(called_ae_title=_txt(bytes(tree['called']).strip(b'\0')),
+                   calling_ae_title=_txt(bytes(tree['calling']).strip(b'\0')),
                    variable_items=[item_to_lib(i) for i in tree['items']],
                    protocol_version=tree.get('version', 1), reserved1=tree.get('rsv1', 0),
                    reserved2=tree.get('rsv2', 0), reserved3=struct.unpack('>8I', rsv3))
